@@ -246,4 +246,22 @@ META = {
         "stub": STUB_WAMP,
         "design_ref": "DESIGN.md section 4, C20",
     },
+    "C14": {
+        "title": "Components reconnect within their retry budget and finish exactly once",
+        "budgets": {"quick": (60000, 70), "thorough": (1500000, 1800)},
+        "variants": ALL_VARIANTS,
+        "rule": ("one run = a real Component with 1-3 transports (websocket / rawsocket, real client stacks), drawn "
+                 "max_retries in {0,1,2,3,-1}, initial delay, growth, jitter, maximum delay, is_fatal classifier, main in "
+                 "{none, returns, raises, pending, returns later / fails late}; every connection attempt gets a drawn "
+                 "outcome out of 8 (refused, connect timeout, transport handshake fails, ABORT, joined then cut, joined "
+                 "then GOODBYE normal / system_shutdown, joined and staying) played by the real server stack with a "
+                 "scripted router over the simulated link; stop() at any point in 30% of the runs; retry sleeps run on "
+                 "virtual time (up to 4000 s per run); non-trivial = at least 2 connection attempts; distinct = hash of "
+                 "(action kind, attempt outcomes, component state) sequence"),
+        "real": REAL_STACK + ["autobahn.wamp.component + autobahn.{twisted,asyncio}.component (retry loop, per-connection futures)",
+                              "autobahn.wamp.protocol new-API Session"],
+        "stub": ["connection establishment: SimEndpoint (IStreamClientEndpoint) / SimLoop.create_connection", "router: scripted session on the real server transports",
+                 "TCP link, reactor/selector, randomness (retry jitter seeded)"],
+        "design_ref": "DESIGN.md section 4, C14",
+    },
 }
